@@ -78,6 +78,52 @@ func (x *Exec) doCallVals(st *State, cc *ssa.CallCommon, fnv V, args []V, site s
 	return []Outcome{x.applyContract(st, fr, con, key, names, args, callee.Signature, site, tp)}
 }
 
+// mentionsCallRecords reports whether a clause names the call records of the function it belongs to.
+func mentionsCallRecords(e *CExpr) bool {
+	if e == nil {
+		return false
+	}
+	if e.Op == "ident" && (strings.HasPrefix(e.Tok, "called_") || strings.HasPrefix(e.Tok, "call_")) {
+		return true
+	}
+	for _, a := range e.Args {
+		if mentionsCallRecords(a) {
+			return true
+		}
+	}
+	return false
+}
+
+// callCovers: emit a satisfiability query behind every contract call (thorough tier, dump -covers).
+var callCovers = false
+
+// shortCallName: plenccore.Skip -> Skip, plenccodec.Codec.Read -> Codec_Read,
+// plenccodec.IntCodec[T].Read -> IntCodec_Read (the names usable in loop step clauses).
+func shortCallName(key string) string {
+	if i := strings.LastIndex(key, "/"); i >= 0 {
+		key = key[i+1:]
+	}
+	if i := strings.Index(key, "."); i >= 0 {
+		key = key[i+1:]
+	}
+	var b strings.Builder
+	depth := 0
+	for _, c := range key {
+		switch {
+		case c == '[':
+			depth++
+		case c == ']':
+			depth--
+		case depth > 0 || c == '*':
+		case c == '.':
+			b.WriteByte('_')
+		default:
+			b.WriteRune(c)
+		}
+	}
+	return b.String()
+}
+
 func (x *Exec) onStack(st *State, fn *ssa.Function) bool {
 	for _, f := range st.frames {
 		if f.fn == fn {
@@ -385,9 +431,32 @@ func (x *Exec) applyContract(st *State, fr *Frame, con *Contract, key string, na
 		if en.Local && !x.usesLocals() {
 			continue
 		}
+		if mentionsCallRecords(en.Expr) {
+			// about the callee's own calls (called_<name>, call_<name>_...): proved on its body, meaningless to a caller
+			continue
+		}
 		if err := st.assumeClause(env, en.Expr); err != nil {
 			x.genFail(x.instrName(fr, site, "call")+".ensures("+key+")", "callee-contract", x.safetyTags(fr), x.posOf(site.Pos()), err.Error())
 			continue
+		}
+	}
+	// vacuity guard: the callee's contract, once assumed, must leave the path satisfiable (a contradiction
+	// between a contract and the engine's own assumptions would silently prove everything behind the call)
+	if callCovers && fr != nil && fr.depth == 0 && site != nil {
+		// (thorough tier) one query per path reaching the call; the site is covered when any of them is satisfiable
+		cname := x.instrName(fr, site, "call") + ".cover(" + key + ")"
+		x.cover(st, cname, "cover", x.safetyTags(fr), x.posOf(site.Pos()), "some path stays satisfiable after assuming the contract of "+key)
+	}
+	if fr != nil {
+		if fr.lastCall == nil {
+			fr.lastCall = map[string]callRec{}
+		}
+		fr.lastCall[shortCallName(key)] = callRec{args: args, results: results}
+		if fr.depth == 0 {
+			if st.topCalls == nil {
+				st.topCalls = map[string]callRec{}
+			}
+			st.topCalls[shortCallName(key)] = callRec{args: args, results: results}
 		}
 	}
 	return Outcome{st: st, results: results}
